@@ -105,7 +105,7 @@ pub fn run(rep: &mut Rep) {
     for cut in 0..one_valid.len() {
         tails.push(("truncated-valid".into(), one_valid[..cut].to_vec()));
     }
-    for n in [1usize, 2, 64, 7608] {
+    for n in [1usize, 2, 64, 7608, 7609, 7610, 8192, 70000] {
         tails.push(("ff-fill".into(), vec![0xff; n]));
         tails.push(("00-fill".into(), vec![0x00; n]));
     }
